@@ -37,5 +37,5 @@ LawIndex == (form = "index") => LET r == IndexOf(sub.n, n) IN
               /\ Len(r) <= 1
               /\ (r # <<>> => r[1] = (IF sub.n < 0 THEN sub.n + n ELSE sub.n) /\ r[1] >= 0 /\ r[1] < n)
               /\ (r = <<>> <=> (sub.n >= n \/ sub.n < 0 - n))
-Emit == form # "none" => EmitCase(Case("sel", ThePath, Doc, <<Canon, [Canon EXCEPT !.spc = TRUE, !.plus = TRUE]>>))
+Emit == form # "none" => EmitCase(Case("sel", ThePath, Doc, <<Canon, [Canon EXCEPT !.spc = 1, !.plus = TRUE]>>))
 =============================================================================
